@@ -3,3 +3,6 @@ pub fn run(_ctx: &Ctx, _replay: Option<&serde_json::Value>) -> i32 {
     eprintln!("not implemented");
     2
 }
+pub fn worker_case(_case: &serde_json::Value) -> serde_json::Value {
+    serde_json::json!({})
+}
